@@ -46,6 +46,7 @@ type Gen struct {
 	past  []*TxInfo // earlier transactions (for replays)
 	Anchor string
 	Contracts []*contractInfo
+	ExtraContracts func() []string // contracts known to the reference EVM (e.g. created by contracts)
 	pendingDeploys []*contractInfo
 }
 
